@@ -611,6 +611,50 @@ impl Engine for Epochs {
             }
         };
         let cur = st.observe();
+        // ---- C20, observation point `Epoch{id}` of the manager: the current epoch is reported as it is,
+        // and an epoch created earlier is reported with the start time it was given — as long as every
+        // epoch since was created with the duration configured now (the query derives past starts from
+        // the current duration; after a duration change it cannot know, which is recorded as a stat)
+        if let (Some(m), true) = (st.mgr.clone(), cur.m) {
+            let app = &st.app;
+            let q = |id: u64| -> Outcome<em::EpochResponse> {
+                let m = m.clone();
+                guarded(move || app.wrap().query_wasm_smart(&m, &em::QueryMsg::Epoch { id }))
+            };
+            if let Outcome::Ok(e) = q(cur.mid) {
+                mon.check("C20", "m_epoch_query_current", e.epoch.id == cur.mid && e.epoch.start_time.nanos() == cur.mstart, || {
+                    format!("{line}: Epoch{{id: {}}} answers ({}, {}), CurrentEpoch ({}, {})", cur.mid, e.epoch.id, e.epoch.start_time.nanos(), cur.mid, cur.mstart)
+                });
+            } else {
+                mon.check("C20", "m_epoch_query_current", false, || format!("{line}: Epoch{{id: current}} failed"));
+            }
+            let n = st.hist_m.len();
+            let mut same_duration = true;
+            for k in (0..n.saturating_sub(1)).rev().take(4) {
+                // epochs k+1 .. were created with these durations
+                same_duration = same_duration && st.hist_m[k + 1].2 == cur.mdur;
+                let (id, start, _) = st.hist_m[k];
+                if st.hist_m[n - 1].0 != cur.mid {
+                    break;
+                }
+                if !same_duration {
+                    mon.stat("m_epoch_query_past_after_duration_change(not judged)");
+                    continue;
+                }
+                match q(id) {
+                    Outcome::Ok(e) => {
+                        mon.stat("m_epoch_query_past_judged");
+                        if start % 1_000_000_000 != 0 || cur.mdur % 1_000_000_000 != 0 {
+                            mon.stat("m_epoch_query_past_judged_subsecond");
+                        }
+                        mon.check("C20", "m_epoch_query_reports_recorded_start", e.epoch.id == id && e.epoch.start_time.nanos() == start, || {
+                            format!("{line}: Epoch{{id: {id}}} answers start {}, the epoch was created with start {start} (current epoch {} starts {}, duration {})", e.epoch.start_time.nanos(), cur.mid, cur.mstart, cur.mdur)
+                        });
+                    }
+                    _ => mon.stat("m_epoch_query_past_failed(arithmetic)"),
+                }
+            }
+        }
         // histories of created epochs
         if outcome == "ok" {
             match op {
